@@ -6,7 +6,7 @@ from . import c17, c12, c02
 
 ID = "C07"
 LEAN_MODULE = "Ucfg.Props.C07"
-LEVEL_TEXT = "Totality theorems: the flag-value parser and the splice lexer/parser never panic on any string; get/set/remove never panic through the regenerated bounds guards - per field and for WHOLE paths (np_pathGet, np_pathHas, np_pathSet: any non-empty path, any node); the typed unpacker never panics for any target type, pre-filled value, option set and configuration (unpack_never_panics: induction over the fuel, a claim per model function; reflect's own panics are not model sites: they are covered by the site inventory and the differential streams); growth bounded by MaxIdx (C20); SetChild refuses every child that holds the target config or is a known parent of the receiver or the target (setChild_refuses_*, holdsH_complete) and a successful SetChild under any name (names, indices, objects created on the way, padding) keeps the heap free of configs stored below themselves (setChild_keeps_acyclic, via grows_noCycle; the fuel of the containment test has to cover the depth of the heap); Set* keeps it too (setPath_keeps_acyclic), and no history of NewFrom and Merge calls - values with embedded configs, any list policy - makes a config part of its own subtree (history_keeps_acyclic: copies are trees of new nodes, cpy_up / buildH_up / MInv). Plus the regenerated inventory of panic-capable sites against a reviewed one, and malformed streams with panic/fatal/timeout/goroutine-leak observation. Third-party decoders only exercised; evaluator termination is C08's partial part."
+LEVEL_TEXT = "Totality theorems: the flag-value parser and the splice lexer/parser never panic on any string; get/set/remove never panic through the regenerated bounds guards - per field and for WHOLE paths (np_pathGet, np_pathHas, np_pathSet: any non-empty path, any node); the typed unpacker never panics for any target type, pre-filled value, option set and configuration (unpack_never_panics: induction over the fuel, a claim per model function; reflect's own panics are not model sites: they are covered by the site inventory and the differential streams); growth bounded by MaxIdx (C20); SetChild refuses every child that holds the target config or is a known parent of the receiver or the target (setChild_refuses_*, holdsH_complete) and a successful SetChild under any name (names, indices, objects created on the way, padding) keeps the heap free of configs stored below themselves (setChild_keeps_acyclic, via grows_noCycle; the fuel of the containment test has to cover the depth of the heap); Set* keeps it too (setPath_keeps_acyclic), and no history of NewFrom, Merge and Set* calls - values with embedded configs, any list policy, any path - makes a config part of its own subtree (history_keeps_acyclic: copies are trees of new nodes, cpy_up / buildH_up / MInv). Plus the regenerated inventory of panic-capable sites against a reviewed one, and malformed streams with panic/fatal/timeout/goroutine-leak observation. Third-party decoders only exercised; evaluator termination is C08's partial part."
 CORRESPONDENCE = "every modelled entry point (Parse, Vars, Path/Ops, Normalize, Unpack) ~ the public API, plus an unmodelled stream through the format loaders"
 RULE = ("dedicated malformed streams: (a) arbitrary byte strings (random bytes, truncated / bit-flipped / deeply nested documents, YAML "
         "anchors and merge keys, invalid UTF-8) through yaml/json/hjson.NewConfig with and without PathSep/VarExp, followed by Unpack and "
